@@ -124,6 +124,11 @@ def case_strategy(draw: Any, proto: str) -> Dict[str, Any]:
         "kernel": draw(st.sampled_from([0, 1000, 70000])),
         "window": window,
         "max_frame": draw(st.sampled_from([None, None, 16384, 32768, 100000])),
+        "twin": None if draw(st.integers(0, 2)) else {
+            "at": draw(st.sampled_from([0.0, 0.0, 0.01, 0.5])),
+            "len": draw(st.sampled_from([2, 500, 70000])),
+            "delay": draw(st.sampled_from([0.0, 0.0, 0.3])),
+            "cl": draw(st.booleans())},
     }
     return case
 
@@ -429,13 +434,47 @@ def run_case(case: Dict[str, Any]) -> CaseInfo:
     programs = {f"/r{i}": app_program(r) for i, r in enumerate(case["requests"])}
     cfg = {"keep_alive_timeout": T_BIG}
 
+    twin = case.get("twin")
+    if twin:
+        tbody = make_body(twin["len"], 211)
+        programs["/twin"] = [["recv_all"], ["sleep", twin["delay"]],
+                             ["respond", 201, [["x-twin", "1"]] + (
+                                 [["content-length", str(len(tbody))]] if twin["cl"] else []),
+                              [b2s(tbody[:len(tbody) // 2]), b2s(tbody[len(tbody) // 2:])]]]
+    holder: Dict[str, Any] = {}
+
     async def scenario(env: Any) -> Any:
-        return await (drive_h1(env, case) if h1 else drive_h2(env, case))
+        if twin:
+            # a second connection of the same worker receives a response at the same time
+            tc = env.connect()
+            holder["twin"] = tc
+
+            async def go() -> None:
+                tc.send(b"GET /twin HTTP/1.1\r\nHost: twin.example\r\n\r\n")
+
+            env.spawn_at(twin["at"], 0, go)
+        out = await (drive_h1(env, case) if h1 else drive_h2(env, case))
+        if twin:
+            await env.settle(50.0)
+            holder["twin_rx"] = holder["twin"].received()
+            holder["twin"].eof()
+            await env.settle(50.0)
+        return out
 
     for be in BACKENDS:
         obs = run_sim(be, cfg, programs, scenario, sched=case.get("sched", 0))
+        if twin:
+            resps, left, err = parse_responses(holder["twin_rx"], ["GET"], False)
+            if err or left or len(resps) != 1 or not resps[0].complete or \
+                    resps[0].status != 201 or resps[0].body != tbody or \
+                    resps[0].header(b"x-twin") != [b"1"]:
+                raise Violation("second_connection_response", f"the connection served at the "
+                                f"same time received {[r.to_json() for r in resps]} {err}",
+                                backend=be)
         (judge_h1 if h1 else judge_h2)(case, obs)
     classes = ["opening=" + case["opening"], "pace=" + case["pace"]]
+    if twin:
+        classes.append("second_connection")
     big = False
     multi = False
     supp = False
